@@ -922,6 +922,22 @@ def rule_t3(chk: Check, C: Classes):
                 if depth != 0:
                     why = why or "a path registers a clean-up statement and leaves without removing it: it is then emitted in every later rule"
             chk.require(not why, R, f"{key}:cleanup-balance", where, why)
+            # the compact form has no place for the `self.call_invalid_rules and` gate the long form puts in front of an invalid_
+            # alternative: it may be taken only where the rule is known to have none
+            compact = [p for p in ps if any(x[0] == "print" and x[1].startswith("return ") for x in p)]
+            if compact:
+                chk.count(R)
+                ungated = []
+                for p in compact:
+                    conds = [(x[1], x[2]) for x in p if x[0] == "cond"]
+                    known = any(("invalidvisitor.visit(" in c and ((not c.startswith("not ") and t is False) or (c.startswith("not ") and t is True)))
+                                for c, t in conds)
+                    if not known:
+                        ungated.append([c for c, t in conds][-4:])
+                chk.require(not ungated, R, f"{key}:compact-form-without-invalid", where,
+                            f"the compact `return self.seq_alts(...)` form is emitted on a path that has not established that the rule has no "
+                            f"invalid_ alternative (tests on the path: {ungated[:1]}): `r: invalid_x | 'a'` then calls invalid_x in the first "
+                            f"pass, without the call_invalid_rules gate")
         # ---------------------------------------------------------------- visit_Rhs: alternatives in order, all of them
         r = C.resolve(g, "visit_Rhs")
         if r is not None:
